@@ -72,7 +72,10 @@ def _case(draw, tier):
             bad = {}
             for i, t in enumerate(g["tasks"]):
                 if t["kind"] in graph.PROC_KINDS and draw(st.sampled_from(range(5))) == 0:
-                    bad[str(i)] = draw(st.sampled_from([{"exit": 3}, {"signal": 9}, {"launch": "eagain"}]))
+                    # rmout: the command exits 0 after removing / moving away its own output directory
+                    bad[str(i)] = draw(st.sampled_from([{"exit": 3}, {"signal": 9}, {"launch": "eagain"}, {"rmout": True}, {"rmout": True}]))
+                    if "rmout" in bad[str(i)] and draw(st.booleans()):
+                        t["args"], t["opts"] = [], []    # nothing to record but the version itself
             s["outcomes"] = bad
             tl = draw(st.sampled_from([0, 6, 20]))
             s["tape"] = draw(st.lists(st.sampled_from([0] * 20 + list(range(1, 16))), min_size=tl, max_size=tl))
@@ -264,6 +267,13 @@ class World:
                 self.v.append(("row_without_directory", "%s: version %s@%d is recorded but %s does not exist" % (what, task, ts, os.path.relpath(d, self.root))))
                 continue
             names = set(os.listdir(d))
+            if step["op"] == "run" and key not in self.known and any(
+                    "rmout" in o and self.ids[int(i)] == task for i, o in step.get("outcomes", {}).items()):
+                # the command removed its own output directory while Conductor's tee threads were creating the log files in
+                # it: what is left of the directory is the command's doing; only its existence is demanded of the version
+                self.labels.add("version_of_a_command_that_removed_its_output")
+                self.known[key] = {"commit": commit, "dirty": dirty, "snap": trees.snapshot(d)}
+                continue
             if "done" not in names:
                 self.v.append(("row_with_unfinished_output", "%s: recorded version %s@%d does not hold the task's finished output (%s)" % (what, task, ts, sorted(names))))
             for log in ("stdout.log", "stderr.log"):
@@ -413,6 +423,8 @@ def _run(case, work):
         rows = w.invariant(i, step, res)
         if op == "run" and not killed:
             exits = [e for e in res.get("events", []) if e["e"] == "exit" and not e.get("foreign")]
+            if any("rmout" in o for o in step["outcomes"].values()):
+                w.labels.add("command_removed_its_output_directory")
             if any(e["status"] != 0 for e in exits):
                 w.labels.add("nonzero_exit_not_recorded")
                 if any(e["status"] == 0 and e["task"] and w.case["tasks"][w.ids.index(e["task"])]["kind"] == "exp" for e in exits if e["task"] in w.ids):
